@@ -418,8 +418,10 @@ func c28GenWorld(t *rapid.T, logf func(string, ...interface{})) *c28World {
 	case 1:
 		w.cfg.IgnorePostPolicy = true
 	}
-	w.rds = []uint64{rapid.SampledFrom([]uint64{0, 100}).Draw(t, "rdA"), 0}
-	w.rds[1] = w.rds[0] + 1
+	// route distinguishers: type 0 (2-octet AS : 4-octet number), type 1 (IPv4 : 2-octet number), type 2
+	// (4-octet AS : 2-octet number) or no VRF; the second VRF's differs from the first in one bit anywhere
+	w.rds = []uint64{rapid.SampledFrom([]uint64{0, 100, 0x0000fde800000064, 0x0001c0000201000a, 0x00020003fde80007}).Draw(t, "rdA"), 0}
+	w.rds[1] = w.rds[0] ^ 1<<uint(rapid.SampledFrom([]int{0, 0, 16, 31, 32, 47, 48, 49, 63}).Draw(t, "rdB_bit"))
 	n := rapid.IntRange(2, 3).Draw(t, "npeers")
 	for i := 0; i < n; i++ {
 		p := &c28Peer{idx: i, routes: map[string]c28Route{}}
